@@ -899,6 +899,7 @@ STREAMS = [
     [b'BYE "too many connections"\r\n', b"OK\r\n"],    # the BYE line is consumed like any other: what follows it is not BYE again
     [b'"' + b"n" * 300 + b'"\r\nOK\r\n'],                # RFC 5804: names of up to 512 octets must work
     [b"{0}\r\n\r\nOK\r\n", b'"n"\r\nOK\r\n'],         # an empty value (an empty script) sent as a literal of no octets
+    [b"BYE (TRYLATER) {4}\r\nbusy\r\n"],                # the text of a BYE sent as a literal: still the client's Error, wherever it is cut
 ]
 
 
@@ -922,6 +923,7 @@ EXPECTED = [
     [("raise", "Error"), (b"OK", None, b"")],
     [(b"OK", None, b'"' + b"n" * 300 + b'"\r\n')],
     [(b"OK", None, b"\r\n"), (b"OK", None, b'"n"\r\n')],   # (the line end after a value that does not end with CRLF is part of the data)
+    [("raise", "Error")],
 ]
 
 
@@ -983,6 +985,10 @@ def reader_eval(ctx, R, thorough=False):
         return out
 
     def oracle(interp, e, name, recv, args, kw, st):
+        if isinstance(recv, fd.Const) and recv.v is None and name in ("recv", "close", "sendall", "settimeout"):
+            return [fd.Exc("AttributeError", e)]  # the socket attribute was set to None (the connection was released) and is used again
+        if isinstance(recv, fd.Const) and isinstance(recv.v, fd.Rec) and recv.v.cls == "socket" and name in ("close", "settimeout", "shutdown"):
+            return [(fd.Const(None), None)]
         if name == "recv" and args and isinstance(args[0], fd.Const) and isinstance(args[0].v, int):
             ch = st.env.get("@chunks")
             ci = st.env.get("@ci")
@@ -1021,6 +1027,8 @@ def reader_eval(ctx, R, thorough=False):
             env[rs_key] = fd.Const(read_size)  # a small receive size stands for replies longer than the real one
         env["@chunks"] = fd.Const(chunks)
         env["@ci"] = fd.Const(0)
+        if isinstance(env.get("%s.sock" % sn), fd.Const) and env["%s.sock" % sn].v is None:
+            env["%s.sock" % sn] = fd.Const(fd.Rec("socket"))  # a connected client
         results = []
         for _reply in stream:
             it = fd.Interp(asm.node, R.cls.name, oracle, resolve=module_resolver(ctx.program, R.module), loop_unroll=3 * len(whole) + 12,
@@ -1030,7 +1038,13 @@ def reader_eval(ctx, R, thorough=False):
                 ps = it.run(dict(env))
             except (fd.TooManyPaths, RecursionError):
                 return None
-            if len(ps) != 1:
+            if len(ps) > 1:
+                # a fork on something the scenario leaves open (a debug flag): the same outcome and the same client state on every path
+                def sig(q):
+                    return (q.kind, repr(q.value), sorted((k, repr(x)) for k, x in q.env.items() if k.startswith(sn + ".") or k.startswith("@")))
+                if any(sig(q) != sig(ps[0]) for q in ps[1:]):
+                    return None
+            elif len(ps) != 1:
                 return None
             p = ps[0]
             if p.kind == "raise":
@@ -1039,6 +1053,11 @@ def reader_eval(ctx, R, thorough=False):
                 results.append(("raise", p.value))
                 if p.value == "Error" and _reply is not stream[-1] and stream[0].startswith(b"BYE"):
                     env = {k: x for k, x in p.env.items() if k.startswith(sn + ".") or k.startswith("@")}
+                    sk_ = env.get("%s.sock" % sn)
+                    if isinstance(sk_, fd.Const) and sk_.v is None:
+                        # the client released the connection on BYE: nothing more is read from it
+                        results.append("released")
+                        break
                     continue
                 break
             v = p.value
@@ -1059,6 +1078,10 @@ def reader_eval(ctx, R, thorough=False):
         if ctx.__dict__.get("_debug_m7"):
             print("REF", whole, ref)
         want = EXPECTED[STREAMS.index(stream)]
+        released = bool(ref) and ref[-1] == "released"
+        if released:
+            ref = ref[:-1]
+            want = want[:len(ref)]  # (a client that drops the connection on BYE reads nothing more from it)
         got_ref = [tuple(bytes(x) if isinstance(x, (bytes, bytearray)) else x for x in r[0]) if isinstance(r[0], tuple) else r for r in ref]
         if got_ref != want:
             return ("bad", "the reply stream %r, delivered in one segment, is read as %r; it says %r" % (whole, ref, want))
@@ -1073,6 +1096,8 @@ def reader_eval(ctx, R, thorough=False):
                 if t_ is None:
                     return None
                 n += 1
+                if released and t_ and t_[-1] == "released" and all(x == ("raise", "Error") for x in t_[:-1]):
+                    continue
                 if not (t_ and t_[-1] == ("raise", "Error")) or len(t_) != len(stream):
                     return ("bad", "the reply stream %r cut after %d of its %d octets (then silence) is read as %r: the incomplete reply must end in "
                             "Error" % (whole, short, L, t_))
@@ -1084,6 +1109,8 @@ def reader_eval(ctx, R, thorough=False):
             if got is None:
                 return None
             n += 1
+            if released and got and got[-1] == "released":
+                got = got[:-1]
             if got != ref:
                 pts = sorted(set(cuts))
                 shown = [whole[a:b] for a, b in zip([0] + pts, pts + [L])]
